@@ -1,9 +1,24 @@
-"""statement scripts -> sea-query statements inside the MIR engine (builder API run from its MIR)"""
+"""statement scripts -> sea-query statements inside the MIR engine (builder API run from its MIR).
+Mirror of /verif/replay/src/stmt.rs."""
 from interp import Cell, Ref, Adt, Str, VecV, UNIT, Unsupported
 from models import some, none, as_str, unref
 
 SEL = 'query::select::SelectStatement::'
+INS = 'query::insert::InsertStatement::'
+UPD = 'query::update::UpdateStatement::'
+DEL = 'query::delete::DeleteStatement::'
 S = 'expr::SimpleExpr'
+DI = 'types::SeaRc<dyn types::Iden>'
+
+def vec(xs): return VecV([Cell(x) for x in xs])
+
+def value_tuple(sq, row):
+    vs = [sq.value(v) for v in row]
+    n = len(vs)
+    if n == 1: return Adt('ValueTuple', 'One', [Cell(vs[0])])
+    if n == 2: return Adt('ValueTuple', 'Two', [Cell(vs[0]), Cell(vs[1])])
+    if n == 3: return Adt('ValueTuple', 'Three', [Cell(v) for v in vs])
+    return Adt('ValueTuple', 'Many', [Cell(vec(vs))])
 
 def tableref(sq, t):
     k = t[0]
@@ -13,68 +28,278 @@ def tableref(sq, t):
     if k == 'ta': return Adt('TableRef', 'TableAlias', [Cell(sq.iden(t[1])), Cell(sq.iden(t[2]))])
     if k == 'sta': return Adt('TableRef', 'SchemaTableAlias', [Cell(sq.iden(t[1])), Cell(sq.iden(t[2])), Cell(sq.iden(t[3]))])
     if k == 'subq': return Adt('TableRef', 'SubQuery', [Cell(build(sq, t[1])), Cell(sq.iden(t[2]))])
+    if k == 'vals': return Adt('TableRef', 'ValuesList', [Cell(vec([value_tuple(sq, r) for r in t[1]])), Cell(sq.iden(t[2]))])
+    if k == 'fn': return Adt('TableRef', 'FunctionCall', [Cell(sq.func(t[1], t[2])), Cell(sq.iden(t[3]))])
     raise Unsupported('tableref %r' % (k,))
 
 def order(o): return Adt('Order', o, [])
+def field_order(sq, vals): return Adt('Order', 'Field', [Cell(Adt('Values', None, [Cell(vec([sq.value(v) for v in vals]))]))])
+
+def frame(f):
+    if isinstance(f, str): return Adt('Frame', f, [])
+    return Adt('Frame', f[0], [Cell(f[1])])
+
+def window(sq, t):
+    e = sq.e
+    w = e.call('query::window::WindowStatement::new', [])
+    wc = Cell(w); r = Ref(wc, True)
+    WS = 'query::window::WindowStatement::'
+    for c in t['calls']:
+        k = c[0]
+        if k == 'partition_by': e.call(WS + 'add_partition_by::<%s>' % S, [r, sq.expr(c[1])])
+        elif k == 'order_by': e.call('<query::window::WindowStatement as query::ordered::OrderedStatement>::order_by::<types::ColumnRef>', [r, sq.colref(c[1]), order(c[2])])
+        elif k == 'frame':
+            end = none() if len(c) < 4 or c[3] is None else some(frame(c[3]))
+            e.call(WS + 'frame', [r, Adt('FrameType', c[1], []), frame(c[2]), end])
+        else: raise Unsupported('window call ' + k)
+    return wc.v
 
 def build(sq, t):
     k = t['k']
     if k == 'select': return select(sq, t)
+    if k == 'insert': return insert(sq, t)[0]
+    if k == 'update': return update(sq, t)
+    if k == 'delete': return delete(sq, t)
+    if k == 'with': return with_query(sq, t)
     raise Unsupported('statement kind ' + k)
 
 def select(sq, t):
     e = sq.e
-    q = e.call(SEL + 'new', [])
-    qc = Cell(q)
+    qc = Cell(e.call(SEL + 'new', []))
     for c in t['calls']: select_call(sq, qc, c)
     return qc.v
 
-def select_call(sq, qc, c):
-    e = sq.e; r = Ref(qc, True); k = c[0]
-    CS = '<query::select::SelectStatement as query::condition::ConditionalStatement>::'
-    OS = '<query::select::SelectStatement as query::ordered::OrderedStatement>::'
-    if k == 'distinct': e.call(SEL + 'distinct', [r])
-    elif k == 'column': e.call(SEL + 'column::<types::ColumnRef>', [r, sq.colref(c[1])])
-    elif k == 'expr': e.call(SEL + 'expr::<%s>' % S, [r, sq.expr(c[1])])
-    elif k == 'expr_as': e.call(SEL + 'expr_as::<%s, types::SeaRc<dyn types::Iden>>' % S, [r, sq.expr(c[1]), sq.iden(c[2])])
-    elif k == 'from': e.call(SEL + 'from::<types::TableRef>', [r, tableref(sq, c[1])])
-    elif k == 'from_subquery': e.call(SEL + 'from_subquery::<types::SeaRc<dyn types::Iden>>', [r, build(sq, c[1]), sq.iden(c[2])])
-    elif k == 'join': e.call(SEL + 'join::<types::TableRef, query::condition::Condition>', [r, Adt('JoinType', c[1], []), tableref(sq, c[2]), sq.cond(c[3])])
-    elif k == 'and_where': e.call(CS + 'and_where', [r, sq.expr(c[1])])
-    elif k == 'cond_where': e.call(CS + 'cond_where::<query::condition::Condition>', [r, sq.cond(c[1])])
-    elif k == 'group_by': e.call(SEL + 'group_by_col::<types::ColumnRef>', [r, sq.colref(c[1])])
-    elif k == 'add_group_by': e.call(SEL + 'add_group_by::<Vec<%s>>' % S, [r, VecV([Cell(sq.expr(c[1]))])])
-    elif k == 'and_having': e.call(SEL + 'and_having', [r, sq.expr(c[1])])
-    elif k == 'cond_having': e.call(SEL + 'cond_having::<query::condition::Condition>', [r, sq.cond(c[1])])
-    elif k == 'order_by': e.call(OS + 'order_by::<types::ColumnRef>', [r, sq.colref(c[1]), order(c[2])])
+def cond_stmt(ty): return '<%s as query::condition::ConditionalStatement>::' % ty
+def ord_stmt(ty): return '<%s as query::ordered::OrderedStatement>::' % ty
+
+def ordered_call(sq, ty, r, c):
+    e = sq.e; k = c[0]; OS = ord_stmt(ty)
+    if k == 'order_by': e.call(OS + 'order_by::<types::ColumnRef>', [r, sq.colref(c[1]), order(c[2])])
     elif k == 'order_by_expr': e.call(OS + 'order_by_expr', [r, sq.expr(c[1]), order(c[2])])
     elif k == 'order_by_nulls': e.call(OS + 'order_by_with_nulls::<types::ColumnRef>', [r, sq.colref(c[1]), order(c[2]), Adt('NullOrdering', c[3], [])])
-    elif k == 'order_field':
-        o = Adt('Order', 'Field', [Cell(Adt('Values', None, [Cell(VecV([Cell(sq.value(v)) for v in c[2]]))]))])
-        e.call(OS + 'order_by::<types::ColumnRef>', [r, sq.colref(c[1]), o])
+    elif k == 'order_by_expr_nulls': e.call(OS + 'order_by_expr_with_nulls', [r, sq.expr(c[1]), order(c[2]), Adt('NullOrdering', c[3], [])])
+    elif k == 'order_field': e.call(OS + 'order_by::<types::ColumnRef>', [r, sq.colref(c[1]), field_order(sq, c[2])])
+    elif k == 'order_field_expr': e.call(OS + 'order_by_expr', [r, sq.expr(c[1]), field_order(sq, c[2])])
+    elif k == 'clear_order_by': e.call(OS + 'clear_order_by', [r])
+    else: return False
+    return True
+
+def cond_call(sq, ty, r, c):
+    e = sq.e; k = c[0]; CS = cond_stmt(ty)
+    if k == 'and_where': e.call(CS + 'and_where', [r, sq.expr(c[1])])
+    elif k == 'cond_where': e.call(CS + 'cond_where::<query::condition::Condition>', [r, sq.cond(c[1])])
+    else: return False
+    return True
+
+def returning_clause(sq, c):
+    e = sq.e; k = c[0]
+    ret = e.call('query::returning::Returning::new', [])
+    if k == 'returning_all': return e.call('query::returning::Returning::all', [Ref(Cell(ret))])
+    if k == 'returning_col': return e.call('query::returning::Returning::column::<types::ColumnRef>', [Ref(Cell(ret)), sq.colref(c[1])])
+    if k == 'returning_cols': return e.call('query::returning::Returning::columns::<types::ColumnRef, Vec<types::ColumnRef>>', [ret, vec([sq.colref(x) for x in c[1]])])
+    if k == 'returning_exprs': return e.call('query::returning::Returning::exprs::<%s, Vec<%s>>' % (S, S), [ret, vec([sq.expr(x) for x in c[1]])])
+    raise Unsupported('returning ' + k)
+
+def select_call(sq, qc, c):
+    e = sq.e; r = Ref(qc, True); k = c[0]
+    ty = 'query::select::SelectStatement'
+    if cond_call(sq, ty, r, c) or ordered_call(sq, ty, r, c): return
+    if k == 'distinct': e.call(SEL + 'distinct', [r])
+    elif k == 'distinct_on': e.call(SEL + 'distinct_on::<types::ColumnRef, Vec<types::ColumnRef>>', [r, vec([sq.colref(x) for x in c[1]])])
+    elif k == 'column': e.call(SEL + 'column::<types::ColumnRef>', [r, sq.colref(c[1])])
+    elif k == 'expr': e.call(SEL + 'expr::<%s>' % S, [r, sq.expr(c[1])])
+    elif k == 'expr_as': e.call(SEL + 'expr_as::<%s, %s>' % (S, DI), [r, sq.expr(c[1]), sq.iden(c[2])])
+    elif k == 'expr_window': e.call(SEL + 'expr_window::<%s>' % S, [r, sq.expr(c[1]), window(sq, c[2])])
+    elif k == 'expr_window_as': e.call(SEL + 'expr_window_as::<%s, %s>' % (S, DI), [r, sq.expr(c[1]), window(sq, c[2]), sq.iden(c[3])])
+    elif k == 'expr_window_name': e.call(SEL + 'expr_window_name::<%s, %s>' % (S, DI), [r, sq.expr(c[1]), sq.iden(c[2])])
+    elif k == 'window': e.call(SEL + 'window::<%s>' % DI, [r, sq.iden(c[1]), window(sq, c[2])])
+    elif k == 'from': e.call(SEL + 'from::<types::TableRef>', [r, tableref(sq, c[1])])
+    elif k == 'from_subquery': e.call(SEL + 'from_subquery::<%s>' % DI, [r, build(sq, c[1]), sq.iden(c[2])])
+    elif k == 'from_values': e.call(SEL + 'from_values::<Vec<value::ValueTuple>, value::ValueTuple, %s>' % DI, [r, vec([value_tuple(sq, row) for row in c[1]]), sq.iden(c[2])])
+    elif k == 'join': e.call(SEL + 'join::<types::TableRef, query::condition::Condition>', [r, Adt('JoinType', c[1], []), tableref(sq, c[2]), sq.cond(c[3])])
+    elif k == 'join_subquery': e.call(SEL + 'join_subquery::<%s, query::condition::Condition>' % DI, [r, Adt('JoinType', c[1], []), build(sq, c[2]), sq.iden(c[3]), sq.cond(c[4])])
+    elif k == 'group_by': e.call(SEL + 'group_by_col::<types::ColumnRef>', [r, sq.colref(c[1])])
+    elif k == 'add_group_by': e.call(SEL + 'add_group_by::<Vec<%s>>' % S, [r, vec([sq.expr(c[1])])])
+    elif k == 'and_having': e.call(SEL + 'and_having', [r, sq.expr(c[1])])
+    elif k == 'cond_having': e.call(SEL + 'cond_having::<query::condition::Condition>', [r, sq.cond(c[1])])
     elif k == 'limit': e.call(SEL + 'limit', [r, c[1]])
     elif k == 'offset': e.call(SEL + 'offset', [r, c[1]])
     elif k == 'union': e.call(SEL + 'union', [r, Adt('UnionType', c[1], []), build(sq, c[2])])
+    elif k == 'lock': e.call(SEL + 'lock', [r, Adt('LockType', c[1], [])])
+    elif k == 'lock_with_behavior': e.call(SEL + 'lock_with_behavior', [r, Adt('LockType', c[1], []), Adt('LockBehavior', c[2], [])])
+    elif k == 'lock_with_tables': e.call(SEL + 'lock_with_tables::<types::TableRef, Vec<types::TableRef>>', [r, Adt('LockType', c[1], []), vec([tableref(sq, x) for x in c[2]])])
+    elif k == 'with_cte': e.call(SEL + 'with_cte::<query::with::WithClause>', [r, with_clause(sq, c[1])])
     elif k in ('clear_selects', 'from_clear', 'reset_limit', 'reset_offset'): e.call(SEL + k, [r])
-    elif k == 'clear_order_by': e.call(OS + 'clear_order_by', [r])
     else: raise Unsupported('select call ' + k)
+
+def on_conflict(sq, t):
+    e = sq.e
+    OC = 'query::on_conflict::OnConflict::'
+    tg = t.get('target')
+    if tg is None: oc = e.call(OC + 'new', [])
+    elif tg[0] == 'cols': oc = e.call(OC + 'columns::<Vec<%s>, %s>' % (DI, DI), [vec([sq.iden(x) for x in tg[1]])])
+    elif tg[0] == 'exprs':
+        oc = e.call(OC + 'new', []); c0 = Cell(oc)
+        e.call(OC + 'exprs::<Vec<%s>, %s>' % (S, S), [Ref(c0, True), vec([sq.expr(x) for x in tg[1]])]); oc = c0.v
+    else: raise Unsupported('on conflict target')
+    oc_c = Cell(oc); r = Ref(oc_c, True)
+    for c in t['calls']:
+        k = c[0]
+        if k == 'do_nothing': e.call(OC + 'do_nothing', [r])
+        elif k == 'do_nothing_on': e.call(OC + 'do_nothing_on::<%s, Vec<%s>>' % (DI, DI), [r, vec([sq.iden(x) for x in c[1]])])
+        elif k == 'update_column': e.call(OC + 'update_column::<%s>' % DI, [r, sq.iden(c[1])])
+        elif k == 'update_columns': e.call(OC + 'update_columns::<%s, Vec<%s>>' % (DI, DI), [r, vec([sq.iden(x) for x in c[1]])])
+        elif k == 'value': e.call(OC + 'value::<%s, %s>' % (DI, S), [r, sq.iden(c[1]), sq.expr(c[2])])
+        elif k == 'target_and_where': e.call(OC + 'target_and_where', [r, sq.expr(c[1])])
+        elif k == 'action_and_where': e.call(OC + 'action_and_where', [r, sq.expr(c[1])])
+        elif k == 'target_cond_where': e.call(OC + 'target_cond_where::<query::condition::Condition>', [r, sq.cond(c[1])])
+        elif k == 'action_cond_where': e.call(OC + 'action_cond_where::<query::condition::Condition>', [r, sq.cond(c[1])])
+        else: raise Unsupported('on conflict call ' + k)
+    return oc_c.v
+
+def insert(sq, t, hook=None):
+    """returns (statement, log) where log records the outcome of fallible calls"""
+    e = sq.e
+    qc = Cell(e.call(INS + 'new', [])); log = []
+    for i, c in enumerate(t['calls']):
+        insert_call(sq, qc, c, log)
+        if hook: hook(i, qc)
+    return qc.v, log
+
+def result_json(r):
+    if r.variant == 'Ok': return 'ok'
+    er = r.fields[0].v
+    if er.variant == 'ColValNumMismatch': return {'err': 'ColValNumMismatch', 'col_len': er.fields[0].v, 'val_len': er.fields[1].v}
+    return {'err': 'other'}
+
+def insert_call(sq, qc, c, log):
+    e = sq.e; r = Ref(qc, True); k = c[0]
+    if k == 'into_table': e.call(INS + 'into_table::<types::TableRef>', [r, tableref(sq, c[1])])
+    elif k == 'columns': e.call(INS + 'columns::<%s, Vec<%s>>' % (DI, DI), [r, vec([sq.iden(x) for x in c[1]])])
+    elif k == 'values':
+        before = e.call('<query::insert::InsertStatement as Clone>::clone', [Ref(qc)])
+        res = e.call(INS + 'values::<Vec<%s>>' % S, [r, vec([sq.expr(x) for x in c[1]])])
+        j = result_json(res)
+        if j != 'ok':
+            from models import struct_eq
+            j['unchanged'] = struct_eq(e, qc.v, before)
+        log.append(j)
+    elif k == 'values_panic': e.call(INS + 'values_panic::<Vec<%s>>' % S, [r, vec([sq.expr(x) for x in c[1]])])
+    elif k == 'values_from_panic': e.call(INS + 'values_from_panic::<Vec<%s>>' % S, [r, vec([vec([sq.expr(x) for x in row]) for row in c[1]])])
+    elif k == 'select_from':
+        before = e.call('<query::insert::InsertStatement as Clone>::clone', [Ref(qc)])
+        res = e.call(INS + 'select_from::<query::select::SelectStatement>', [r, build(sq, c[1])])
+        j = result_json(res)
+        if j != 'ok':
+            from models import struct_eq
+            j['unchanged'] = struct_eq(e, qc.v, before)
+        log.append(j)
+    elif k == 'on_conflict': e.call(INS + 'on_conflict', [r, on_conflict(sq, c[1])])
+    elif k.startswith('returning'): e.call(INS + 'returning', [r, returning_clause(sq, c)])
+    elif k == 'or_default_values': e.call(INS + 'or_default_values', [r])
+    elif k == 'or_default_values_many': e.call(INS + 'or_default_values_many', [r, c[1]])
+    elif k == 'replace': e.call(INS + 'replace', [r])
+    elif k == 'with_cte': e.call(INS + 'with_cte::<query::with::WithClause>', [r, with_clause(sq, c[1])])
+    else: raise Unsupported('insert call ' + k)
+
+def update(sq, t):
+    e = sq.e
+    qc = Cell(e.call(UPD + 'new', [])); r = Ref(qc, True)
+    ty = 'query::update::UpdateStatement'
+    for c in t['calls']:
+        k = c[0]
+        if cond_call(sq, ty, r, c) or ordered_call(sq, ty, r, c): continue
+        if k == 'table': e.call(UPD + 'table::<types::TableRef>', [r, tableref(sq, c[1])])
+        elif k == 'from': e.call(UPD + 'from::<types::TableRef>', [r, tableref(sq, c[1])])
+        elif k == 'value': e.call(UPD + 'value::<%s, %s>' % (DI, S), [r, sq.iden(c[1]), sq.expr(c[2])])
+        elif k == 'limit': e.call(UPD + 'limit', [r, c[1]])
+        elif k.startswith('returning'): e.call(UPD + 'returning', [r, returning_clause(sq, c)])
+        elif k == 'with_cte': e.call(UPD + 'with_cte::<query::with::WithClause>', [r, with_clause(sq, c[1])])
+        else: raise Unsupported('update call ' + k)
+    return qc.v
+
+def delete(sq, t):
+    e = sq.e
+    qc = Cell(e.call(DEL + 'new', [])); r = Ref(qc, True)
+    ty = 'query::delete::DeleteStatement'
+    for c in t['calls']:
+        k = c[0]
+        if cond_call(sq, ty, r, c) or ordered_call(sq, ty, r, c): continue
+        if k == 'from_table': e.call(DEL + 'from_table::<types::TableRef>', [r, tableref(sq, c[1])])
+        elif k == 'limit': e.call(DEL + 'limit', [r, c[1]])
+        elif k.startswith('returning'): e.call(DEL + 'returning', [r, returning_clause(sq, c)])
+        elif k == 'with_cte': e.call(DEL + 'with_cte::<query::with::WithClause>', [r, with_clause(sq, c[1])])
+        else: raise Unsupported('delete call ' + k)
+    return qc.v
+
+def with_clause(sq, t):
+    e = sq.e
+    WC = 'query::with::WithClause::'; CTE = 'query::with::CommonTableExpression::'
+    wc = Cell(e.call(WC + 'new', [])); r = Ref(wc, True)
+    if t.get('recursive'): e.call(WC + 'recursive', [r, True])
+    for c in t['ctes']:
+        cc = Cell(e.call(CTE + 'new', [])); cr = Ref(cc, True)
+        e.call(CTE + 'table_name::<%s>' % DI, [cr, sq.iden(c['name'])])
+        if c.get('cols') is not None: e.call(CTE + 'columns::<%s, Vec<%s>>' % (DI, DI), [cr, vec([sq.iden(x) for x in c['cols']])])
+        if c.get('materialized') is not None: e.call(CTE + 'materialized', [cr, bool(c['materialized'])])
+        q = c['query']
+        qty = KIND_TY[q['k']]
+        e.call(CTE + 'query::<%s>' % qty, [cr, build(sq, q)])
+        e.call(WC + 'cte', [r, cc.v])
+    if t.get('search') is not None:
+        s = t['search']
+        se = Adt('SelectExpr', None, [Cell(sq.expr(s['expr'])), Cell(some(sq.iden(s['alias']))), Cell(none())])
+        srch = e.call('query::with::Search::new_from_order_and_expr::<query::select::SelectExpr>', [Adt('SearchOrder', s['order'], []), se])
+        e.call(WC + 'search', [r, srch])
+    if t.get('cycle') is not None:
+        c = t['cycle']
+        cy = e.call('query::with::Cycle::new_from_expr_set_using::<%s, %s, %s>' % (S, DI, DI), [sq.expr(c['expr']), sq.iden(c['set']), sq.iden(c['using'])])
+        e.call(WC + 'cycle', [r, cy])
+    return wc.v
+
+def with_query(sq, t):
+    e = sq.e
+    w = with_clause(sq, t['with'])
+    q = t['query']
+    return e.call('query::with::WithClause::query::<%s>' % KIND_TY[q['k']], [w, build(sq, q)])
 
 BTYPE = {'mysql': 'backend::mysql::MysqlQueryBuilder', 'postgres': 'backend::postgres::PostgresQueryBuilder', 'sqlite': 'backend::sqlite::SqliteQueryBuilder'}
 KIND_TY = {'select': 'query::select::SelectStatement', 'insert': 'query::insert::InsertStatement', 'update': 'query::update::UpdateStatement',
            'delete': 'query::delete::DeleteStatement', 'with': 'query::with::WithQuery'}
+ENTRIES = ['to_string', 'build', 'build_any', 'build_collect', 'build_collect_any', 'build_collect_into', 'build_collect_any_into']
 
 def render(sq, kind, stmt_v, backend, entry='to_string'):
     """-> (sql chars, list of Value Adts | None)"""
-    from props.sq import BACKENDS, values_list
+    from props.sq import BACKENDS, values_list, PLACEHOLDER
     e = sq.e
     ty = KIND_TY[kind]
     b = Adt(BACKENDS[backend], None, [])
+    W = '<%s as query::traits::QueryStatementWriter>::' % ty
+    B = '<%s as query::traits::QueryStatementBuilder>::' % ty
+    sr = Ref(Cell(stmt_v))
     if entry == 'to_string':
-        r = e.call('<%s as query::traits::QueryStatementWriter>::to_string::<%s>' % (ty, BTYPE[backend]), [Ref(Cell(stmt_v)), b])
+        r = e.call(W + 'to_string::<%s>' % BTYPE[backend], [sr, b])
         return as_str(r).chars, None
     if entry == 'build':
-        r = e.call('<%s as query::traits::QueryStatementWriter>::build::<%s>' % (ty, BTYPE[backend]), [Ref(Cell(stmt_v)), b])
-    elif entry == 'build_any':
-        r = e.call('<%s as query::traits::QueryStatementBuilder>::build_any' % ty, [Ref(Cell(stmt_v)), Ref(Cell(b))])
+        r = e.call(W + 'build::<%s>' % BTYPE[backend], [sr, b])
+        return as_str(r.fields[0].v).chars, values_list(r.fields[1].v)
+    if entry == 'build_any':
+        r = e.call(B + 'build_any', [sr, Ref(Cell(b))])
+        return as_str(r.fields[0].v).chars, values_list(r.fields[1].v)
+    ph = PLACEHOLDER[backend]
+    wc = Cell(e.call('prepare::SqlWriterValues::new::<&str>', [sq.strref(ph[0]), ph[1]]))
+    if entry == 'build_collect':
+        s = e.call(W + 'build_collect::<%s>' % BTYPE[backend], [sr, b, Ref(wc, True)])
+        parts = e.call('prepare::SqlWriterValues::into_parts', [wc.v])
+        return as_str(s).chars, values_list(parts.fields[1].v)
+    if entry == 'build_collect_any':
+        s = e.call(B + 'build_collect_any', [sr, Ref(Cell(b)), Ref(wc, True)])
+        parts = e.call('prepare::SqlWriterValues::into_parts', [wc.v])
+        return as_str(s).chars, values_list(parts.fields[1].v)
+    if entry == 'build_collect_into':
+        e.call(W + 'build_collect_into::<%s>' % BTYPE[backend], [sr, b, Ref(wc, True)])
+    elif entry == 'build_collect_any_into':
+        e.call(B + 'build_collect_any_into', [sr, Ref(Cell(b)), Ref(wc, True)])
     else: raise Unsupported('entry ' + entry)
-    return as_str(r.fields[0].v).chars, values_list(r.fields[1].v)
+    parts = e.call('prepare::SqlWriterValues::into_parts', [wc.v])
+    return as_str(parts.fields[0].v).chars, values_list(parts.fields[1].v)
